@@ -421,12 +421,21 @@ impl FromVal for wa::PublicKeyCredentialRpEntity {
 }
 impl FromVal for wa::PublicKeyCredentialUserEntity {
     fn from_val(v: &Val) -> R<Self> {
-        Ok(Self {
+        let direct = Self {
             id: FromVal::from_val(need(v, "id")?)?,
             icon: FromVal::from_val(need(v, "icon")?)?,
             name: FromVal::from_val(need(v, "name")?)?,
             display_name: FromVal::from_val(need(v, "display_name")?)?,
-        })
+        };
+        // the public convenience constructor must build the same value when only the id is set
+        if direct.icon.is_none() && direct.name.is_none() && direct.display_name.is_none() {
+            let via = wa::PublicKeyCredentialUserEntity::from(direct.id.clone());
+            if via != direct {
+                return Err("PublicKeyCredentialUserEntity::from(id) differs from the entity with only the id set".into());
+            }
+            return Ok(via);
+        }
+        Ok(direct)
     }
 }
 impl FromVal for wa::PublicKeyCredentialDescriptor {
@@ -436,7 +445,16 @@ impl FromVal for wa::PublicKeyCredentialDescriptor {
 }
 impl FromVal for wa::PublicKeyCredentialParameters {
     fn from_val(v: &Val) -> R<Self> {
-        Ok(Self { alg: FromVal::from_val(need(v, "alg")?)?, key_type: FromVal::from_val(need(v, "key_type")?)? })
+        let direct = Self { alg: FromVal::from_val(need(v, "alg")?)?, key_type: FromVal::from_val(need(v, "key_type")?)? };
+        // the public convenience constructor must build the same value for type "public-key"
+        if direct.key_type.as_str() == "public-key" {
+            let via = wa::PublicKeyCredentialParameters::public_key_with_alg(direct.alg);
+            if via != direct {
+                return Err("PublicKeyCredentialParameters::public_key_with_alg differs".into());
+            }
+            return Ok(via);
+        }
+        Ok(direct)
     }
 }
 impl FromVal for wa::KnownPublicKeyCredentialParameters {
@@ -881,7 +899,14 @@ fn optab(b: u8) -> String {
     };
     let back = match &o {
         Err(_) => "-".to_string(),
-        Ok(op) => format!("{:x}", u8::from(*op)),
+        // both conversions to the command byte: From<Operation> for u8 and Operation::into_u8
+        Ok(op) => {
+            if u8::from(*op) != op.into_u8() {
+                "into_u8-differs".to_string()
+            } else {
+                format!("{:x}", u8::from(*op))
+            }
+        }
     };
     let vend = match ctap2::VendorOperation::try_from(b) {
         Ok(v) => format!("{:x}", u8::from(v)),
